@@ -119,7 +119,7 @@ theorem sealed_step {S init s s' n c} (wf : WF S) (inv : Inv S init s) (sl : Sea
     intro q hq; simp only [upd]; split
     · simp
     · split
-      · next e => rw [e, wf.cname_ns _ _ (wf.dst_ns i)] at hq; cases hq
+      · next e => rw [e, wf.cname_ns _ _ _ (wf.dst_ns i)] at hq; cases hq
       · exact sl.noStaging q hq
   | unlock i h => exact ⟨sl.content, sl.old, sl.noStaging⟩
   | kill i => exact ⟨sl.content, sl.old, sl.noStaging⟩
